@@ -1070,3 +1070,39 @@ func init() {
 	register("optracker-track-track-same-cid", 2, 3, mk(optracker.OperationPin))
 	register("optracker-track-untrack-same-cid", 2, 3, mk(optracker.OperationUnpin))
 }
+
+// ---------- scenario 12: status listing while the daemon cannot be listed and an operation is tracked ----------
+
+func init() {
+	register("tracker-statusall-recoverall-while-daemon-listing-fails", 2, 2, func(t *testing.T) *e1.Exec {
+		ctx := context.Background()
+		c := clus.Cid("a")
+		sh := clus.NewShared(nil)
+		model := clus.NewIPFS()
+		model.Decide = func(call *clus.Call) clus.Action {
+			if call.Kind == "pinls" || call.Kind == "pin" {
+				return clus.Fail
+			}
+			return clus.Apply
+		}
+		tr := newTracker(model, sh.State, 10)
+		pin := everywhere(c)
+		n1, n2 := -1, -1
+		return &e1.Exec{
+			Threads: map[string]func(){
+				"T0": func() { sh.State.Add(ctx, pin); tr.Track(ctx, pin) },
+				"T1": func() {
+					n1 = len(tr.StatusAll(ctx, api.TrackerStatusUndefined))
+					if l, err := tr.RecoverAll(ctx); err == nil {
+						n2 = len(l)
+					}
+				},
+			},
+			After: func(runErr error) (string, []e1.Finding) {
+				quiesce()
+				return fmt.Sprintf("statusall=%d recoverall=%d", n1, n2), nil
+			},
+			Teardown: func() { tr.Shutdown(ctx) },
+		}
+	})
+}
